@@ -4,6 +4,42 @@ PENDING = "not claimed yet: the model, theorems and correspondence for this prop
 NOT_APPLICABLE = {("C%02d" % i): PENDING for i in range(1, 21)}
 
 META = {
+    "C01": {
+        "text": "PARTIAL proof. Coq theorems (all Hamiltonian tables, cutoffs, strings, betas; no bounds): the sampler's matrix elements are those of H (|J| - J s s', Gamma, |h| + h s); the Metropolis diagonal update of a slot is reversible w.r.t. the SSE configuration weight beta^n (L-n)!/L! prod w; "
+                "any combination of flips of symmetric clusters keeps that weight and is an involution; clusters carrying a field operator are flipped with probability 0; reversible stochastic kernels are stationary and sweeps of stationary kernels are stationary. "
+                "The model's whole timestep is replayed against the real one on raw RNG words (steps), the cluster flip on real configurations (c09). What no theorem covers (ergodicity, estimator identities, the kernel identification) is decided by long runs of the real sampler against exact diagonalisation: energy, magnetisations, correlations and mean operator count per bond on frustrated / multi-edge models with h = 0, +, -.",
+        "note": "Trusted: Coq kernel + vm_compute; model transcriptions (validated by replay); f64 exact-diagonalisation oracle with 6 sigma + 0.02 tolerance and a confirmation run. Convergence itself is oracle-tested, not proved.",
+        "technique": "Coq proof (detailed balance of each move w.r.t. the SSE weight, stationarity under composition) + raw-tape replay of whole timesteps + exact-diagonalisation oracle",
+        "design_ref": "DESIGN.md §3 C01",
+    },
+    "C02": {
+        "text": "PARTIAL proof. Coq theorems for every weight table (unequal maximum weights included): the heat-bath slot program (insert with beta W/(L-n+beta W), bond ~ max weight, accept w/max; remove with (L-n+1)/(L-n+1+beta W)) is reversible w.r.t. the same configuration weight as the Metropolis program; the table has one entry per bond equal to the maximum over all 2^k sub-states, which dominates every weight. "
+                "The program and the table are tied to heatbath.rs by raw-tape replay and threshold bisection (c08) and by whole-step replay with heat bath on (steps); convergence with heat bath on (Ising with and without RVB and field, generic with 3-variable terms) is decided against exact diagonalisation.",
+        "note": "Trusted: Coq kernel + vm_compute; model transcriptions; exact-diagonalisation oracle. Convergence itself is oracle-tested, not proved.",
+        "technique": "Coq proof (heat-bath slot reversibility w.r.t. the SSE weight; table = max over all sub-states) + raw-tape replay / threshold bisection + exact-diagonalisation oracle",
+        "design_ref": "DESIGN.md §3 C02",
+    },
+    "C03": {
+        "text": "PARTIAL proof about an ABSTRACT move, not a transcription of rvb.rs: Coq proves that re-drawing n boundary operators in proportion to their post-flip weights and accepting with min(1,(W_after/W_before)^n) balances the configuration weight exactly, that a zero ratio is never accepted, and that such a kernel composes with the others. "
+                "The implementation is tied to the property only by implementation-side oracles: exact diagonalisation with automatic and explicit RVB (with heat bath, h = 0,+,-, frustrated triangles, multi-edges, unequal |J|) and, after every call of random histories interleaving RVB sweeps with other updates, world-line, legality, counter and structural checks.",
+        "note": "Trusted: Coq kernel; exact-diagonalisation oracle; naive checkers. The RVB implementation is modelled by nothing executable in Coq: a change to rvb.rs is detected by the oracles only (replay = failing model/run).",
+        "technique": "Coq proof of the acceptance algebra of the abstract RVB move + exact-diagonalisation and structural oracles on the real implementation",
+        "design_ref": "DESIGN.md §3 C03",
+    },
+    "C04": {
+        "text": "PARTIAL proof. Coq theorems for every Hamiltonian, operator arity and leg pair: the heat-bath exit choice of the directed loop satisfies W(o) P(o; e->x) = W(o') P(o'; x->e) (same normaliser both ways, exit weight = weight of the resulting operator), a bounce changes nothing; the diagonal update is reversible w.r.t. the configuration weight; cluster updates are enabled exactly when every interaction is spin-flip symmetric and a constant single-site term exists; loop updates preserve leg parity (explains the known finding). "
+                "The generic timestep (diagonal, loops with their start choice, clusters, refresh) is replayed on raw RNG words against the real one; convergence on exchange models, symmetric diagonal + constant sets, mixed arities, with and without heat bath, is decided against exact diagonalisation.",
+        "note": "Trusted: Coq kernel + vm_compute; model transcriptions; exact-diagonalisation oracle. Known finding (odd-parity) is listed in known_findings.json and reported as KNOWN-FINDING.",
+        "technique": "Coq proof (vertex detailed balance, slot reversibility, cluster gate, parity invariant) + raw-tape replay of generic timesteps + exact-diagonalisation oracle",
+        "design_ref": "DESIGN.md §3 C04",
+    },
+    "C05": {
+        "text": "Coq theorems: for Ising replicas on the same graph with same-sign couplings, the implemented swap probability p_swap times the product weight before the exchange equals the product weight after it (beta factor and Hamiltonian factor from bond counts, all strings, all ladders); a Metropolis exchange with that ratio balances the product weight, also inside a longer ladder; a pair is exchanged with probability exactly min(1,p_swap), moving only the configuration, under one shared cutoff. "
+                "Tempering steps of the serial and rayon drivers are replayed on raw RNG words and every swap threshold is bisected (c10), with the theorem's executable premise evaluated on every probed pair; that every rung samples its own thermal distribution is decided against exact diagonalisation on ladders of 2-5 replicas. PARTIAL: per-replica stationarity is C01-C03, ergodicity is oracle-tested.",
+        "note": "Trusted: Coq kernel + vm_compute; model transcription; rayon (C13); exact-diagonalisation oracle.",
+        "technique": "Coq proof (swap probability = weight ratio; exchange balance on the product weight) + raw-tape replay / threshold bisection of tempering steps + exact-diagonalisation oracle",
+        "design_ref": "DESIGN.md §3 C05",
+    },
     "C16": {
         "text": "Coq theorems over all matrices and variable lists (unbounded sizes): a constructor accepts exactly the right-sized, "
                 "non-negative matrices; lookup returns the documented entry; constant / constant-diagonal / Ising-symmetry flags hold "
